@@ -14,6 +14,14 @@
 // packets that carry identity fields the same steps are replayed on a twin server without them.
 // spec/CommandsTrace.tla judges the trace with the policy table of spec/CommandsPolicy.tla.
 //
+// Further dimensions: client-id fields claimed inside the JSON body (bf), the state of the named objects
+// when the behaviour starts (wv: expired-but-stored / revoked / inactive), mappings one side of which is
+// client id 0 (m0: listened on by the server, mz: no target client) - the id an unauthenticated connection has.
+// spec/CommandsConc.tla adds two duplex commands in flight: their handlers are parked in the storage call in
+// front of CheckSubdomainAvailable (srvkit CommandOptions.DomainGate), the executor's duplex wait (shortened
+// with Commands.SetDuplexTimeout) times out or not, and effect attribution / response routing are judged
+// per command like the sequential cases (clauses EffId, NotParty, Misrouted).
+//
 // The command-type table is read from the REAL registry (CommandRegistry.ListHandlers) and, for
 // the types handleCommandPacket handles before the executor, by probing a server whose executor
 // has an empty registry (a type that does not come back as "no handler registered" never reached
@@ -97,6 +105,7 @@ type effT struct {
 
 type stepT struct {
 	Op     string `json:"op"`
+	P      string `json:"p"`
 	K      string `json:"k"`
 	ID     string `json:"id"`
 	Resp   string `json:"resp"`
@@ -116,6 +125,8 @@ type stepT struct {
 type behT struct {
 	Reg    string                     `json:"reg"`
 	Wv     string                     `json:"wv"`
+	Conc   bool                       `json:"conc"`
+	Who    string                     `json:"who"`
 	Steps  []stepT                    `json:"steps"`
 	Policy map[string]json.RawMessage `json:"policy"`
 }
@@ -143,6 +154,7 @@ func victimOf(a string) string {
 // one server with its world
 
 type obj struct {
+	Label   string // domains: the subdomain
 	Tgt     string // mappings: the target client
 	Kind    string
 	Ps      []string // parties (client names)
@@ -166,6 +178,7 @@ type run struct {
 	tag    string
 	ncmd   int
 	m1ID   string
+	mapID  map[string]string // m0, mz
 	k0Code string
 	k1Code string
 	d1ID   string
@@ -187,7 +200,7 @@ type inconclusive string
 
 var tNewRun, tCmd, tSnap, nRuns atomic.Int64
 
-func newRun(reg, wv string) (r *run, err error) {
+func newRun(reg, wv string, gate func(sub, base string)) (r *run, err error) {
 	t0 := time.Now()
 	defer func() { tNewRun.Add(int64(time.Since(t0))); nRuns.Add(1) }()
 	s, err := srvkit.NewServer(srvkit.Options{HeartbeatTimeout: time.Hour, CleanupInterval: time.Hour})
@@ -195,13 +208,13 @@ func newRun(reg, wv string) (r *run, err error) {
 		return nil, err
 	}
 	r = &run{s: s, ids: map[string]int64{}, secret: map[string]string{}, nameOf: map[int64]string{}, v: map[string]*srvkit.Conn{},
-		objn: map[string]string{}, oneway: map[packet.CommandType]bool{}}
+		objn: map[string]string{}, oneway: map[packet.CommandType]bool{}, mapID: map[string]string{}}
 	defer func() {
 		if err != nil {
 			s.Close()
 		}
 	}()
-	if r.cm, err = s.EnableCommands(srvkit.CommandOptions{Library: reg == "library"}); err != nil {
+	if r.cm, err = s.EnableCommands(srvkit.CommandOptions{Library: reg == "library", DomainGate: gate}); err != nil {
 		return nil, err
 	}
 	for _, rc := range r.cm.Listing() {
@@ -246,6 +259,22 @@ func newRun(reg, wv string) (r *run, err error) {
 	r.m1ID, r.k0Code, r.k1Code, r.d1ID = m1.ID, k0.Code, k1.Code, d1.ID
 	r.objn[m1.ID], r.objn[k0.ID], r.objn[k0.Code], r.objn[k1.ID], r.objn[k1.Code], r.objn[d1.ID], r.objn[d1.FullDomain] = "m1", "k0", "k0", "k1", "k1", "d1", "d1"
 	r.objn[m3.ID], r.objn[k2.ID], r.objn[k2.Code] = "m3", "k2", "k2"
+	// mappings one side of which is client id 0 - the id an unauthenticated connection has: m0 is listened on by
+	// the server itself (what the management API creates for HTTP mappings), mz has no target client
+	m0, err := s.Cloud.CreatePortMapping(&models.PortMapping{ListenClientID: 0, TargetClientID: r.ids["B"], Protocol: models.ProtocolHTTP,
+		SourcePort: 0, TargetHost: "127.0.0.1", TargetPort: 8088, ListenAddress: "0.0.0.0:80", TargetAddress: "http://127.0.0.1:8088",
+		Status: models.MappingStatusActive, Type: models.MappingTypeAnonymous, Description: "verif m0"})
+	if err != nil {
+		return nil, fmt.Errorf("create m0: %w", err)
+	}
+	mz, err := s.Cloud.CreatePortMapping(&models.PortMapping{ListenClientID: r.ids["A"], TargetClientID: 0, Protocol: models.ProtocolTCP,
+		SourcePort: 9102, TargetHost: "127.0.0.1", TargetPort: 8089, ListenAddress: "0.0.0.0:9102", TargetAddress: "tcp://127.0.0.1:8089",
+		Status: models.MappingStatusActive, Type: models.MappingTypeAnonymous, Description: "verif mz"})
+	if err != nil {
+		return nil, fmt.Errorf("create mz: %w", err)
+	}
+	r.objn[m0.ID], r.objn[mz.ID] = "m0", "mz"
+	r.mapID["m0"], r.mapID["mz"] = m0.ID, mz.ID
 	if err := r.applyWorldVariant(wv, m1.ID, k1.ID, k1.Code, d1.ID); err != nil {
 		return nil, fmt.Errorf("world variant %s: %w", wv, err)
 	}
@@ -419,7 +448,7 @@ func (r *run) snapshot() map[string]*obj {
 			continue
 		}
 		l, t := r.clientName(m.ListenClientID), r.clientName(m.TargetClientID)
-		put(m.ID, &obj{Kind: "mapping", Tgt: t, Ps: uniq(l, t), Own: l,
+		put(m.ID, &obj{Kind: "mapping", Tgt: t, Ps: parties(l, t), Own: l,
 			Attrs:   fmt.Sprintf("l=%s t=%s st=%s rev=%v exp=%v la=%s ta=%s proto=%s", l, t, m.Status, m.IsRevoked, m.IsExpired(), m.ListenAddress, m.TargetAddress, m.Protocol),
 			Traffic: fmt.Sprintf("%d/%d/%d", m.TrafficStats.BytesSent, m.TrafficStats.BytesReceived, m.TrafficStats.Connections),
 			keys:    []string{m.ID}}, m.CreatedAt.Format(time.RFC3339Nano)+m.ID)
@@ -453,7 +482,7 @@ func (r *run) snapshot() map[string]*obj {
 	if ds, err := r.cm.Domains.ListAllMappings(context.Background()); err == nil {
 		for _, d := range ds {
 			o := r.clientName(d.ClientID)
-			put(d.ID, &obj{Kind: "domain", Ps: []string{o}, Own: o,
+			put(d.ID, &obj{Kind: "domain", Label: d.Subdomain, Ps: parties(o), Own: o,
 				Attrs: fmt.Sprintf("o=%s dom=%s st=%s exp=%v tgt=%s:%d", o, d.FullDomain, d.Status, d.IsExpired(), d.TargetHost, d.TargetPort),
 				keys:  []string{d.ID, d.FullDomain}}, fmt.Sprintf("%020d%s", d.CreatedAt, d.ID))
 		}
@@ -479,6 +508,17 @@ func (r *run) snapshot() map[string]*obj {
 		k := f.kind + ":" + f.own
 		cnt[k]++
 		out[fmt.Sprintf("new:%s:%d", k, cnt[k])] = f.o
+	}
+	return out
+}
+
+// parties: the clients among the given ids' names ("none" = client id 0 is nobody)
+func parties(a ...string) []string {
+	out := []string{}
+	for _, x := range uniq(a...) {
+		if x != "none" {
+			out = append(out, x)
+		}
 	}
 	return out
 }
@@ -538,6 +578,8 @@ func (r *run) body(st stepT, actor, bf string) string {
 	switch st.Obj {
 	case "m1":
 		mappingID = r.m1ID
+	case "m0", "mz":
+		mappingID = r.mapID[st.Obj]
 	case "m2": // the mapping created by activating k1
 		for id := range r.liveNew("mapping") {
 			mappingID = id
@@ -739,7 +781,8 @@ func (r *run) cmd(st stepT, claims, bf string) (*cmdResult, string) {
 				if c == r.c1 {
 					own = append(own, p)
 				}
-				d := map[string]any{"to": n, "ty": fmt.Sprintf("packet-%d", byte(p.PacketType)), "snd": "none"}
+				d := map[string]any{"to": n, "ty": fmt.Sprintf("packet-%d", byte(p.PacketType)), "snd": "none",
+					"resp": p.CommandPacket != nil && p.PacketType&0x3F == packet.CommandResp && p.CommandPacket.CommandId == cp.CommandId}
 				if p.CommandPacket != nil {
 					d["ty"] = typeName(p.CommandPacket.CommandType)
 					var b struct {
@@ -940,7 +983,7 @@ func (r *run) hs(st stepT) (fw.Event, string) {
 // replay of one behaviour (once, or twice for the claims twin)
 
 func replay(beh *behT, twin bool, logAll bool) (evs []fw.Event, sums []string, bind []bool, note string, err error) {
-	r, err := newRun(beh.Reg, beh.Wv)
+	r, err := newRun(beh.Reg, beh.Wv, nil)
 	if err != nil {
 		return nil, nil, nil, "", err
 	}
@@ -1067,6 +1110,9 @@ func drive(env *fw.Env, b fw.Behaviour) (t *fw.Trace) {
 	if beh.Policy != nil {
 		return driveTable(&beh)
 	}
+	if beh.Conc {
+		return driveConc(env, &beh)
+	}
 	if len(beh.Steps) == 0 {
 		return &fw.Trace{Status: fw.DriverError, Note: "empty behaviour"}
 	}
@@ -1119,6 +1165,287 @@ func drive(env *fw.Env, b fw.Behaviour) (t *fw.Trace) {
 		}
 	}
 	return &fw.Trace{Status: fw.Realised, Note: note, Events: evs}
+}
+
+// ---------------------------------------------------------------------------------------------
+// concurrent scenarios (spec/CommandsConc.tla): two duplex commands in flight, their handlers parked in the
+// storage call that precedes any use of the caller's identity, the executor's wait timing out or not
+
+const shortDuplexTimeout = 150 * time.Millisecond
+
+type concProc struct {
+	conn    *srvkit.Conn
+	cname   string // connection name in the trace
+	ty      string
+	sub     string
+	cmdID   string
+	reached chan struct{}
+	release chan struct{}
+	done    chan struct{} // Send returned
+	herr    error
+	parked  bool
+}
+
+func driveConc(env *fw.Env, beh *behT) *fw.Trace {
+	var mu sync.Mutex
+	gates := map[string]*concProc{}
+	gate := func(sub, base string) {
+		mu.Lock()
+		p := gates[sub]
+		mu.Unlock()
+		if p == nil {
+			return
+		}
+		close(p.reached)
+		<-p.release
+	}
+	r, err := newRun("server", "base", gate)
+	if err != nil {
+		return &fw.Trace{Status: fw.DriverError, Note: err.Error()}
+	}
+	defer r.s.Close()
+	timeouts := false
+	for _, st := range beh.Steps {
+		timeouts = timeouts || st.Op == "T"
+	}
+	if timeouts {
+		if err := r.cm.SetDuplexTimeout(shortDuplexTimeout); err != nil {
+			if env.Tier != "thorough" {
+				return &fw.Trace{Status: fw.Unrealisable, Note: "duplex timeout not configurable (" + err.Error() + "): driven with the real 30 s in the thorough tier only"}
+			}
+		}
+	}
+	tag := fmt.Sprintf("%d", cmdSeq.Add(1))
+	mk := func(name string, conn *srvkit.Conn, cname, ty string) *concProc {
+		return &concProc{conn: conn, cname: cname, ty: ty, sub: "cc" + name + tag, cmdID: "c11c-" + name + "-" + tag,
+			reached: make(chan struct{}), release: make(chan struct{}), done: make(chan struct{})}
+	}
+	procs := map[string]*concProc{"pa": mk("pa", r.v["A"], "vA", "HTTPDomainCreate")}
+	switch beh.Who {
+	case "vB:create":
+		procs["pb"] = mk("pb", r.v["B"], "vB", "HTTPDomainCreate")
+	case "vB:check":
+		procs["pb"] = mk("pb", r.v["B"], "vB", "HTTPDomainCheckSubdomain")
+	case "c1:check":
+		procs["pb"] = mk("pb", r.c1, "c1", "HTTPDomainCheckSubdomain")
+	default:
+		return &fw.Trace{Status: fw.DriverError, Note: "unknown scenario " + beh.Who}
+	}
+	mu.Lock()
+	for _, p := range procs {
+		gates[p.sub] = p
+	}
+	mu.Unlock()
+	conns := map[string]*srvkit.Conn{"vA": r.v["A"], "vB": r.v["B"], "vC": r.v["C"], "c1": r.c1}
+	clientOf := map[string]string{"vA": "A", "vB": "B", "vC": "C", "c1": "none"}
+	got := map[string][]*packet.TransferPacket{}
+	collect := func() {
+		for n, c := range conns {
+			got[n] = append(got[n], r.cm.Drain(c)...)
+		}
+	}
+	collect()
+	for n := range got {
+		got[n] = nil
+	}
+	pre := r.snapshot()
+	// commands are sent by worker goroutines; a worker whose previous Send has returned (its Execute timed
+	// out) sends the next command too - the same goroutine continues, as a busy server's reader would
+	type worker struct {
+		ch   chan func()
+		busy atomic.Bool
+	}
+	var workers []*worker
+	send := func(f func()) {
+		for _, w := range workers {
+			if w.busy.CompareAndSwap(false, true) {
+				w.ch <- f
+				return
+			}
+		}
+		w := &worker{ch: make(chan func(), 1)}
+		w.busy.Store(true)
+		workers = append(workers, w)
+		go func() {
+			for g := range w.ch {
+				g()
+				w.busy.Store(false)
+			}
+		}()
+		w.ch <- f
+	}
+	defer func() {
+		for _, p := range procs {
+			select {
+			case <-p.release:
+			default:
+				close(p.release)
+			}
+		}
+		for _, w := range workers {
+			close(w.ch)
+		}
+	}()
+	waitFor := func(ch chan struct{}, d time.Duration) bool {
+		deadline := time.After(d)
+		tick := time.NewTicker(200 * time.Microsecond)
+		defer tick.Stop()
+		for {
+			select {
+			case <-ch:
+				return true
+			case <-tick.C:
+				collect()
+			case <-deadline:
+				return false
+			}
+		}
+	}
+	sawResponse := func(p *concProc) bool {
+		for _, ps := range got {
+			for _, x := range ps {
+				if x.CommandPacket != nil && x.PacketType&0x3F == packet.CommandResp && x.CommandPacket.CommandId == p.cmdID {
+					return true
+				}
+			}
+		}
+		return false
+	}
+	for i, st := range beh.Steps {
+		p := procs[st.P]
+		if p == nil {
+			return &fw.Trace{Status: fw.DriverError, Note: "unknown process " + st.P}
+		}
+		switch st.Op {
+		case "D":
+			var body string
+			if p.ty == "HTTPDomainCreate" {
+				body = string(fw.MustJSON(packet.HTTPDomainCreateRequest{TargetURL: "http://localhost:3000", Subdomain: p.sub, BaseDomain: "tunnox.net"}))
+			} else {
+				body = string(fw.MustJSON(packet.HTTPDomainCheckSubdomainRequest{Subdomain: p.sub, BaseDomain: "tunnox.net"}))
+			}
+			ct, _ := typeByName(p.ty)
+			pkt := &packet.TransferPacket{PacketType: packet.JsonCommand, CommandPacket: &packet.CommandPacket{CommandType: ct, CommandId: p.cmdID, CommandBody: body}}
+			send(func() {
+				p.herr = r.s.SM.HandlePacket(&coretypes.StreamPacket{ConnectionID: p.conn.ID, Packet: pkt, Timestamp: time.Now()})
+				close(p.done)
+			})
+			if !waitFor(p.reached, 5*time.Second) {
+				return &fw.Trace{Status: fw.Inconclusive, Note: fmt.Sprintf("step %d: the handler of %s did not reach the storage call within 5 s", i+1, st.P)}
+			}
+			p.parked = true
+		case "T":
+			wait := 40 * shortDuplexTimeout
+			if r.cm.SetDuplexTimeout(shortDuplexTimeout) != nil {
+				wait = 40 * time.Second
+			}
+			if !waitFor(p.done, wait) {
+				return &fw.Trace{Status: fw.Inconclusive, Note: fmt.Sprintf("step %d: Execute of %s did not time out in time", i+1, st.P)}
+			}
+		case "R":
+			close(p.release)
+			deadline := time.Now().Add(5 * time.Second)
+			for !sawResponse(p) {
+				if time.Now().After(deadline) {
+					break // the response may have been lost with a closed stream; the store is judged anyway
+				}
+				time.Sleep(200 * time.Microsecond)
+				collect()
+			}
+		default:
+			return &fw.Trace{Status: fw.DriverError, Note: "unknown step " + st.Op}
+		}
+	}
+	for _, p := range procs {
+		if !waitFor(p.done, 45*time.Second) {
+			return &fw.Trace{Status: fw.Inconclusive, Note: "a command did not return"}
+		}
+	}
+	time.Sleep(300 * time.Microsecond)
+	collect()
+	post := r.snapshot()
+	diff := diffOf(pre, post)
+	evs := []fw.Event{}
+	for _, n := range clientNames {
+		evs = append(evs, fw.Event{"ev": "Hs", "c": "v" + n, "k": "Login", "id": n, "type": "control", "valid": true, "ok": true, "srv": n})
+	}
+	for _, name := range []string{"pa", "pb"} {
+		p := procs[name]
+		actor := clientOf[p.cname]
+		// what this command changed: the domain carrying its subdomain; anything else is attributed to both
+		mine := []map[string]any{}
+		for _, d := range diff {
+			o := post[d["o"].(string)]
+			if o == nil {
+				o = pre[d["o"].(string)]
+			}
+			other := false
+			for _, q := range procs {
+				if q != p && o != nil && o.Label == q.sub {
+					other = true
+				}
+			}
+			if !other {
+				mine = append(mine, d)
+			}
+		}
+		out, respBody := "none", ""
+		deliv := []map[string]any{}
+		for cn, ps := range got {
+			for _, x := range ps {
+				isResp := x.CommandPacket != nil && x.PacketType&0x3F == packet.CommandResp && x.CommandPacket.CommandId == p.cmdID
+				if cn == p.cname {
+					if isResp {
+						var b struct {
+							Success *bool `json:"success"`
+						}
+						if json.Unmarshal([]byte(x.CommandPacket.CommandBody), &b) == nil && b.Success != nil {
+							out, respBody = map[bool]string{true: "ok", false: "fail"}[*b.Success], x.CommandPacket.CommandBody
+						}
+					}
+					continue
+				}
+				// on another connection: this command's response, or a packet that is nobody's response
+				foreign := false
+				for _, q := range procs {
+					if q != p && x.CommandPacket != nil && x.CommandPacket.CommandId == q.cmdID {
+						foreign = true
+					}
+				}
+				if isResp || (!foreign && !(x.CommandPacket != nil && x.PacketType&0x3F == packet.CommandResp)) {
+					ty := fmt.Sprintf("packet-%d", byte(x.PacketType))
+					if x.CommandPacket != nil {
+						ty = typeName(x.CommandPacket.CommandType)
+					}
+					if isResp {
+						ty = "CommandResp"
+					}
+					deliv = append(deliv, map[string]any{"to": clientOf[cn], "ty": ty, "snd": "none", "resp": isResp})
+				}
+			}
+		}
+		if out == "none" && p.herr != nil {
+			out = "fail"
+		}
+		ret := []map[string]any{}
+		if out == "ok" {
+			for n, o := range post {
+				for _, k := range o.keys {
+					if k != "" && strings.Contains(respBody, `"`+k+`"`) {
+						ret = append(ret, map[string]any{"kind": o.Kind, "o": n, "ps": o.Ps, "own": o.Own})
+						break
+					}
+				}
+			}
+		}
+		sort.Slice(deliv, func(i, j int) bool { return fmt.Sprint(deliv[i]) < fmt.Sprint(deliv[j]) })
+		sort.Slice(ret, func(i, j int) bool { return fmt.Sprint(ret[i]["o"]) < fmt.Sprint(ret[j]["o"]) })
+		ev := fw.Event{"ev": "Cmd", "c": p.cname, "ty": p.ty, "pt": "cmd", "claims": "absent", "bf": "absent", "obj": "none", "hc": "concurrent:" + beh.Who,
+			"actor": actor, "out": out, "objp": []string{}, "objo": "none", "objt": "none", "ret": ret, "diff": mine, "deliv": deliv,
+			"sum": summary(out, ret, mine, deliv), "reg": "server", "wv": "base", "conc": true}
+		evs = append(evs, ev)
+	}
+	return &fw.Trace{Status: fw.Realised, Events: evs}
 }
 
 func othersReached(ev fw.Event) bool {
@@ -1372,6 +1699,14 @@ func selfTest(env *fw.Env, acc []*fw.Trace) []*fw.Trace {
 					return evs
 				})
 			}
+			if e["conc"] == true && actor != "none" && e["ty"] == "HTTPDomainCreate" && e["out"] == "ok" {
+				// 11. the response of a command that was overtaken by another one went to the other connection
+				add("misrouted", t, func(evs []fw.Event) []fw.Event {
+					evs[i]["deliv"] = []any{map[string]any{"to": victimOf(actor), "ty": "CommandResp", "snd": "none", "resp": true}}
+					evs[i]["out"] = "none"
+					return evs
+				})
+			}
 			if e["claims"] != "absent" && e["ref"] != nil {
 				// 7. the identity fields changed the outcome
 				add("claims-matter", t, func(evs []fw.Event) []fw.Event {
@@ -1399,7 +1734,7 @@ func selfTest(env *fw.Env, acc []*fw.Trace) []*fw.Trace {
 
 // ---------------------------------------------------------------------------------------------
 
-const allFixes = `{"trafficParty", "dnsAuth", "domainAuth", "notifyAuth"}`
+const allFixes = `{"trafficParty", "dnsAuth", "domainAuth", "notifyAuth", "socksAuth"}`
 
 // genFixes: the tree whose predicted outcomes travel with the behaviours (binding statistics only; the
 // judge never sees them). Development knob: C11_MODEL_FIXES='{}' predicts the tree before patches/C11-*.
@@ -1414,6 +1749,11 @@ func job(name, sets, fixes string, cmds int, resp, emit bool) fw.TLCJob {
 	b := map[bool]string{true: "TRUE", false: "FALSE"}
 	return fw.TLCJob{Name: name, Module: "Commands", Cfg: "Commands_mc.cfg", Workers: 4,
 		Consts: map[string]string{"WVS": `{"base", "expired", "revoked", "inactive"}`, "SETS": sets, "FIXES": fixes, "CMDS": strconv.Itoa(cmds), "RESP": b[resp], "EMIT": b[emit]}}
+}
+
+func concJob(name string, emit bool) fw.TLCJob {
+	return fw.TLCJob{Name: name, Module: "CommandsConc", Cfg: "CommandsConc.cfg", Workers: 2,
+		Consts: map[string]string{"POOLED": "FALSE", "EMIT": map[bool]string{true: "TRUE", false: "FALSE"}[emit]}}
 }
 
 const (
@@ -1432,12 +1772,14 @@ func main() {
 					job("mc: server+special rows, 4 commands, CommandResp too, unpatched tree (deviations masked)", serverSets, "{}", 4, true, false),
 					job("mc: library rows, 4 commands, CommandResp too, patched tree", librarySets, allFixes, 4, true, false),
 					job("mc: library rows, 4 commands, CommandResp too, unpatched tree (deviations masked)", librarySets, "{}", 4, true, false),
+					concJob("mc: two duplex commands in flight, per-call contexts", false),
 				}
 			}
 			return []fw.TLCJob{
-				job("mc: server+special rows, 3 commands, patched tree", serverSets, allFixes, 3, false, false),
-				job("mc: server+special rows, 3 commands, unpatched tree (deviations masked)", serverSets, "{}", 3, false, false),
+				job("mc: server+special rows, 2 commands, patched tree", serverSets, allFixes, 2, false, false),
+				job("mc: server+special rows, 2 commands, unpatched tree (deviations masked)", serverSets, "{}", 2, false, false),
 				job("mc: library rows, 3 commands, patched tree", librarySets, allFixes, 3, false, false),
+				concJob("mc: two duplex commands in flight, per-call contexts", false),
 			}
 		},
 		GenJobs: func(env *fw.Env) []fw.TLCJob {
@@ -1453,7 +1795,7 @@ func main() {
 			}
 			seq := job("gen: random command sequences", serverSets, genFixes(), 4, false, true)
 			seq.Simulate, seq.Depth, seq.Seed, seq.Workers = num, depth, env.Seed, 1
-			jobs = append(jobs, seq)
+			jobs = append(jobs, seq, concJob("gen: interleavings of two duplex commands (dispatch / timeout / storage return)", true))
 			if thorough {
 				lib := job("gen: random command sequences, library rows", librarySets, genFixes(), 4, false, true)
 				lib.Simulate, lib.Depth, lib.Seed, lib.Workers = "num=500", depth, env.Seed+1, 1
@@ -1539,7 +1881,7 @@ func main() {
 					continue
 				}
 				for _, ev := range t.Events {
-					if ev["ev"] == "Cmd" && freeRows[fmt.Sprint(ev["ty"])] && (len(ev["diff"].([]map[string]any)) > 0 || othersReached(ev)) {
+					if ev["ev"] == "Cmd" && ev["conc"] == nil && freeRows[fmt.Sprint(ev["ty"])] && (len(ev["diff"].([]map[string]any)) > 0 || othersReached(ev)) {
 						return fmt.Errorf("policy row %v is classified 'no demand' but the command changed client-owned state or reached another client: %v %v",
 							ev["ty"], ev["diff"], ev["deliv"])
 					}
